@@ -71,12 +71,20 @@ def cases(rng, tier):
                     for _ in range(rng.randint(0, 2)):
                         inner[rng.randrange(len(inner))] = rng.randrange(0, ln)
                     is_ = [lo] + inner + [hi2]
-                out.append({"a": a, "b": b, "dtype": dt, "ws": ws, "is": is_, "iform": rng.choice(gens.INT_FORMS[2:])})
+                out.append({"a": a, "b": b, "dtype": dt, "ws": ws, "is": is_, "iform": rng.choice(gens.INT_FORMS[2:]),
+                            # the input as a fresh array, or as a non-contiguous VIEW (every 2nd / 3rd cell of a larger array, a matrix column)
+                            "layout": rng.choice(["C", "C", "s2", "s3", "col", "rev"])})
+    # SCALE: more than 4096 / 8192 registers (windows across every register boundary); implementation vs reference only
+    for b, n_el in ([(32, 8200), (16, 16400), (8, 33000)] if tier == "quick" else [(32, 8200), (32, 16500), (16, 16400), (8, 33000), (4, 66000), (2, 132000), (1, 263000)]):
+        hi = 2 ** b - 1
+        a = [rng.choice([hi, 1, 0, rng.randint(0, hi)]) for _ in range(n_el)]
+        out.append({"a": a, "b": b, "dtype": rng.choice([d for d in gens.INT_DTYPES if _dtype_ok(d, b)]), "ws": [1, 2, 64 // b], "is": [0, 1, n_el - 1, 64 // b * 4096 - 1, 64 // b * 4096],
+                    "iform": "int64", "layout": "C", "long": True})
     return out
 
 
 def key(p):
-    return engine.stable_hash([p["a"], p["b"], p["ws"], p["is"]])
+    return engine.stable_hash([p["a"] if not p.get("long") else [len(p["a"]), p["a"][:8]], p["b"], p["ws"], p["is"], p.get("layout")])
 
 
 def nontrivial(p):
@@ -104,10 +112,23 @@ def _warm_up():
 _warm_up()
 
 
+def _layout(arr, lay):
+    n = len(arr)
+    if lay == "C" or n == 0:
+        return arr
+    if lay in ("s2", "s3"):
+        k = int(lay[1]); base = np.full(k * n, 1, dtype=arr.dtype); base[::k] = arr
+        return base[::k]
+    if lay == "col":
+        m = np.full((n, 3), 1, dtype=arr.dtype); m[:, 1] = arr
+        return m[:, 1]
+    return arr[::-1].copy()[::-1]          # a view with a negative stride
+
+
 def run_impl(p):
     from npstructures import BitArray
     def f():
-        arr = np.array(p["a"], dtype=p["dtype"])
+        arr = _layout(np.array(p["a"], dtype=p["dtype"]), p.get("layout", "C"))
         before = arr.copy()
         packed = BitArray.pack(arr, p["b"])
         o = {"k": "obs"}
@@ -175,6 +196,8 @@ def oracle(p):
 
 
 def lean_request(p):
+    if p.get("long"):
+        return None
     return {"op": "C13.all", "a": p["a"], "b": p["b"], "is": p["is"], "ws": p["ws"]}
 
 
